@@ -229,6 +229,55 @@ def implies_ne_zero(guards, ex):
     return False
 
 
+TYPE_MAX = {"u8": 255, "u16": 65535, "u32": 2**32 - 1, "u64": 2**64 - 1, "usize": 2**64 - 1,
+            "i8": 127, "i16": 32767, "i32": 2**31 - 1, "i64": 2**63 - 1, "isize": 2**63 - 1}
+
+
+def upper_bound(b, op, depth=6):
+    """a sound upper bound of a non-negative integer operand from its defining expression alone: constants, masks
+    (`x & m`), right shifts, narrowing/widening casts, or the maximum of its unsigned type; None for signed or unknown"""
+    if depth <= 0:
+        return None
+    k = op_const(op)
+    if k is not None:
+        v = k.get("int")
+        return v if isinstance(v, int) and v >= 0 else None
+    pl = op_place(op)
+    if pl is None:
+        return None
+    ty = pl.get("ty", "")
+    tmax = TYPE_MAX.get(ty) if ty.startswith("u") else None
+    if pl["p"]:
+        return tmax
+    sd = b.single_def(pl["l"])
+    if not sd or sd[0] != "stmt":
+        return tmax
+    rv = sd[3].get("rv") or {}
+    cands = [tmax] if tmax is not None else []
+    if "use" in rv:
+        u = upper_bound(b, rv["use"], depth - 1)
+        if u is not None:
+            cands.append(u)
+    elif rv.get("bin") == "BitAnd":
+        for side in ("a", "b"):
+            u = upper_bound(b, rv[side], depth - 1)
+            if u is not None:
+                cands.append(u)
+    elif rv.get("bin") == "Shr":
+        u = upper_bound(b, rv["a"], depth - 1)
+        kk = op_const(rv["b"])
+        if u is not None:
+            cands.append(u >> kk["int"] if kk and isinstance(kk.get("int"), int) and kk["int"] >= 0 else u)
+    elif "cast" in rv and rv.get("kind") == "int_to_int":
+        u = upper_bound(b, rv["cast"], depth - 1)
+        src_unsigned = str(rv.get("from", "")).startswith("u")
+        if u is not None and src_unsigned:
+            # a truncating cast keeps values that already fit; otherwise only the target type's maximum is known
+            if tmax is None or u <= tmax:
+                cands.append(u)
+    return min(cands) if cands else None
+
+
 def discharge(F, mag, site):
     """returns (how, reason) or None"""
     b, bb, t = site.b, site.bb, site.term
@@ -240,6 +289,12 @@ def discharge(F, mag, site):
         if k == "Add":
             if all(le_alloc(c) for c in cls) and wide:
                 return ("D1", "operands %s in a 64-bit type: bounded by live memory (A1)" % "+".join(show(c) for c in cls))
+        if k in ("Mul", "Add") and site.opty in TYPE_MAX:
+            ubs = [upper_bound(b, o) for o in ops]
+            if all(u is not None for u in ubs):
+                tot = ubs[0] * ubs[1] if k == "Mul" else ubs[0] + ubs[1]
+                if tot <= TYPE_MAX[site.opty]:
+                    return ("D2", "interval bound: operands are at most %s, the result at most %d fits %s" % (ubs, tot, site.opty))
         if k == "Mul":
             consts = [const_int(e) for e in site.ops]
             if all(le_alloc(c) for c in cls) and wide and any(c is not None and abs(c) <= 64 for c in consts):
